@@ -491,7 +491,9 @@ class Precede:
                         continue
                     if reach is None:
                         # blocks reachable from entry without completing a guard call
-                        reach, _ = search(f, [0], gb, loop_model=False)
+                        # loop model: a loop entered from outside iterates at least once, so a guard
+                        # applied per element of a collection covers a later loop over the same collection
+                        reach, _ = search(f, [0], gb, loop_model=True)
                         # a guard block itself is "reached" but its successors only via other paths
                     # the site block is unguarded if reachable avoiding guards; a block that is both
                     # guard and site cannot happen (different callees)
